@@ -4,7 +4,7 @@
 patch=$1; shift
 cd /repo || exit 2
 git diff --quiet || { echo "repo has uncommitted changes"; exit 2; }
-git apply "$patch" || { echo "patch does not apply"; exit 2; }
+git apply "$patch" 2>/dev/null || git apply -C1 "$patch" 2>/dev/null || patch -p1 -s -F3 --no-backup-if-mismatch < "$patch" || { echo "patch does not apply"; git checkout -- .; exit 2; }
 trap 'git -C /repo checkout -- .' EXIT INT TERM
 for id in "$@"; do
   out=$(VERIF_NOEVIDENCE=1 /verif/bin/check "$id" --tier ${TIER:-quick} 2>&1); rc=$?
